@@ -1405,3 +1405,57 @@ def r_psdstore(ctx):
     gi = cls.methods.get("__getitem__")
     okg = gi is not None and any(isinstance(r, ast.Return) and src(r.value) == "self.matrix_of_expressions[%s]" % params_of(gi)[1] for r in ast.walk(gi))
     ctx.ob("R-PSDSTORE", "PSDMatrix.__getitem__", okg, "indexing reads the stored matrix" if okg else "indexing does not read the stored matrix", loc(gi, gi) if gi else cls.module.rel)
+
+
+def r_mosekrow(ctx):
+    """MOSEK rows carry exactly the sparse translation of the expression: <A, G> with weight 1 on the Gram variable, the F weights on
+    their own columns; the variables are sized as generate_problem asserts and the function-value columns are free."""
+    repo = ctx.repo
+    mb = _be(repo, "mosek")
+    for meth in ("send_constraint_to_solver", "send_lmi_constraint_to_solver"):
+        fn = mb.methods[meth]
+        ctx.unit(qualname(fn))
+        tr = _sparse_unpack(fn)
+        if tr is None:
+            ctx.ob("R-MOSEKROW", "MosekWrapper.%s::sparse translation" % meth, False, "the row is not built from the sparse translation of the expression", loc(fn, fn))
+            continue
+        gi, gj, gv, fi, fv, cst = tr
+        mats = [s0 for s0 in flow.stmts_of(fn, ast.Assign) if isinstance(s0.value, ast.Call) and call_name(s0.value) == "appendsparsesymmat"
+                and [src(a) for a in s0.value.args[1:]] == [gi, gj, gv]]
+        ok = len(mats) == 1 and src(mats[0].value.args[0]) == "Point.counter"
+        msg = "the Gram part is the sparse symmetric matrix of the translation"
+        if ok:
+            sym = dotted(mats[0].targets[0])
+            bar = [c for c in ast.walk(fn) if isinstance(c, ast.Call) and call_name(c) == "putbaraij" and len(c.args) == 4 and is_const(c.args[1], 0)]
+            ok = len(bar) == 1 and src(bar[0].args[2]).replace(" ", "") == "[%s]" % sym and isinstance(bar[0].args[3], ast.List) and len(bar[0].args[3].elts) == 1 \
+                and is_const(bar[0].args[3].elts[0]) and bar[0].args[3].elts[0].value == 1
+            if not ok:
+                msg = "the Gram part enters the row as `%s`, expected weight 1 on bar-variable 0 with that matrix" % (src(bar[0]) if bar else "nothing")
+            else:
+                aij = [c for c in ast.walk(fn) if isinstance(c, ast.Call) and call_name(c) == "putaijlist" and len(c.args) == 3]
+                ok = len(aij) == 1 and [src(a) for a in aij[0].args[1:]] == [fi, fv]
+                if not ok:
+                    msg = "the function-value part enters the row as `%s`, expected the F indices / weights of the translation" % (src(aij[0]) if aij else "nothing")
+        else:
+            msg = "no sparse symmetric matrix built from the (row, column, value) triplets of the translation with dimension Point.counter"
+        ctx.ob("R-MOSEKROW", "MosekWrapper.%s::row data" % meth, ok, msg if not ok else "row = <A, G> + a . F with the translation's data", loc(fn, fn))
+    # variables
+    fn = mb.methods["set_main_variables"]
+    gp = mb.methods["generate_problem"]
+    av = [c for c in ast.walk(fn) if isinstance(c, ast.Call) and call_name(c) == "appendvars" and c.args]
+    asserted = None
+    for a in ast.walk(gp):
+        if isinstance(a, ast.Assert) and isinstance(a.test, ast.Compare) and isinstance(a.test.left, ast.Call) and call_name(a.test.left) == "getmaxnumvar":
+            asserted = src(a.test.comparators[0])
+    ok = len(av) == 1 and asserted is not None and src(av[0].args[0]) == asserted
+    ctx.ob("R-MOSEKROW", "MosekWrapper.set_main_variables::number of scalar variables", ok,
+           "as many scalar variables are appended as generate_problem asserts (%s)" % asserted if ok else
+           "appendvars(%s) but generate_problem asserts %s variables" % (src(av[0].args[0]) if av else None, asserted), loc(fn, fn))
+    free = [c for c in ast.walk(fn) if isinstance(c, ast.Call) and call_name(c) == "putvarbound" and len(c.args) >= 2 and (dotted(c.args[1]) or "").endswith("boundkey.fr")]
+    okf = False
+    if len(free) == 1:
+        lp = flow.in_loop(common.stmt_of(free[0]))
+        okf = lp is not None and isinstance(lp.iter, ast.Call) and call_name(lp.iter) == "range" and src(lp.iter.args[0]) == "Expression.counter" \
+            and isinstance(lp.target, ast.Name) and dotted(free[0].args[0]) == lp.target.id
+    ctx.ob("R-MOSEKROW", "MosekWrapper.set_main_variables::function values are free", okf,
+           "every function-value variable is unbounded" if okf else "the function-value variables are not all declared free", loc(fn, fn))
